@@ -122,6 +122,15 @@ func simGen(r *rand.Rand, tier string, n int) []*wire.Case {
 		mk("d-limbo-turn-end", s)
 	}
 	{
+		s := base() // a unit killed in limbo at the end of its turn is healed and hit again by id afterwards: announced once
+		s.start = 5
+		s.progs = append(s.progs, "Mu1.0+Mu1.3")
+		s.progs[1] = "Hu1.400+Ap.1.1.100"
+		s.progs[4] = "Au1.1.1.5000+Ap.1.1.150"
+		s.next = "1:a100|2:s100,s100,a100"
+		mk("d-limbo-dead-touched-again", s)
+	}
+	{
 		s := base() // frozen units skip their action; inserts with abort flags are dropped
 		s.start = 5
 		s.progs = append(s.progs, "Mu1.2+Mu3.2", "Ap.8.1.100")
